@@ -72,16 +72,22 @@ func (w *world) pickLogBound(c *eng.Ctx, scale rlwe.Scale, ptMax *big.Int, noise
 			}
 		}
 		c.Count("min_level_queries", 1)
+		// the function accumulates float64 logarithms: a modulus within 2^-40 (relative) of the power
+		// of two may fall on either side; anything else must agree with the exact comparison
+		slack := new(big.Int).Rsh(need, 40)
+		needLo, needHi := new(big.Int).Sub(need, slack), new(big.Int).Add(need, slack)
+		if wantML < 0 && params.RingQ().ModulusAtLevel[params.MaxLevel()].Cmp(needLo) >= 0 && lok {
+			// the whole chain is within that margin below the power of two: "the last level" is as
+			// admissible as "none" (the worst-case correctness condition below is checked either way)
+			wantML = params.MaxLevel()
+			c.Count("min_level_queries_at_float_margin", 1)
+		}
 		if wantML < 0 {
 			c.Check(!lok, sig+"|ok-although-chain-too-short", func() string {
 				return fmt.Sprintf("lambda=%d parties=%d log2(scale)=%.1f: returned (%d,%d,%v), log2 Q=%d", lambda, n, math.Log2(scale.Float64()), ml, lb, lok, params.RingQ().ModulusAtLevel[params.MaxLevel()].BitLen())
 			})
 			return 0, 0, false
 		}
-		// the function accumulates float64 logarithms: a modulus within 2^-40 (relative) of the power
-		// of two may fall on either side; anything else must agree with the exact comparison
-		slack := new(big.Int).Rsh(need, 40)
-		needLo, needHi := new(big.Int).Sub(need, slack), new(big.Int).Add(need, slack)
 		mlOK := lok && ml >= 0 && ml <= params.MaxLevel() && params.RingQ().ModulusAtLevel[ml].Cmp(needLo) >= 0 &&
 			(ml == 0 || params.RingQ().ModulusAtLevel[ml-1].Cmp(needHi) < 0)
 		if !c.Check(mlOK && lb == wantLB, sig+"|wrong-value", func() string {
@@ -155,7 +161,7 @@ func runCKKSShare(c *eng.Ctx, cc caseCfg) {
 		c.Violate(sigE+".New|error-on-admissible", fmt.Sprint(err1, err2), w.cf)
 		return
 	}
-	freshB := 1 + pkEncBound(params, float64(n*params.N()))
+	freshB := freshBound(params, float64(n*params.N()))
 	for _, ctLevel := range w.levels(params.MaxLevel()) {
 		logSlots := w.pickLogSlots(cp.LogMaxSlots())
 		m := w.newMessage(ctLevel, eng.Pick(w.rnd, "sk", "pk"), logSlots)
